@@ -336,3 +336,70 @@ def same_shape(a, b):
     """two paths started from the same lazily shaped pre-state chose the same container sizes"""
     sa, sb = shape_of(a), shape_of(b)
     return all(sb.get(k, v) == v for k, v in sa.items())
+
+
+def kani_run(ck, harness_filters, timeout_s=1500, jobs=8):
+    """run Kani harnesses (E1).  Returns dict harness -> 'ok' | 'failed' | 'inconclusive'.
+    A pass requires: VERIFICATION SUCCESSFUL, every cover satisfied, no unsupported-construct failure."""
+    import re
+    import shutil
+    kdir = os.path.join(VERIF, 'kani')
+    shutil.copy(os.path.join(REPO, 'Cargo.lock'), os.path.join(kdir, 'Cargo.lock'))
+    env = dict(os.environ, CARGO_NET_OFFLINE='true', CARGO_TARGET_DIR=os.path.join(BUILD, 'kani'))
+    env.pop('RUSTFLAGS', None)
+    cmd = ['cargo', 'kani', '-j', str(jobs), '--output-format', 'terse']
+    for h in harness_filters:
+        cmd += ['--harness', h]
+    t = time.time()
+    try:
+        p = subprocess.run(cmd, cwd=kdir, env=env, capture_output=True, text=True, timeout=timeout_s)
+        out = p.stdout + p.stderr
+    except subprocess.TimeoutExpired as e:
+        ck.inconclusive.append(f'kani timed out after {timeout_s}s')
+        return {}, ''
+    dt = time.time() - t
+    res = {}
+    # per-harness blocks: "Checking harness X..." ... "VERIFICATION:- SUCCESSFUL|FAILED"
+    cur = None
+    failed_names = re.findall(r'Verification failed for - (\S+)', out)
+    m = re.search(r'Complete - (\d+) successfully verified harnesses, (\d+) failures, (\d+) total', out)
+    if not m:
+        ck.inconclusive.append('kani: no summary line (build failure or crash): ' + out[-600:])
+        return {}, out
+    n_ok, n_fail, n_total = map(int, m.groups())
+    if 'unsupported_construct' in out and 'FAILURE' in out and re.search(r'unsupported_construct[^\n]*\n[^\n]*Status: FAILURE', out):
+        ck.inconclusive.append('kani: an unsupported construct is reachable (verdict would be vacuous)')
+    covers = re.findall(r'\*\* (\d+) of (\d+) cover properties satisfied', out)
+    for a, b in covers:
+        if a != b:
+            ck.inconclusive.append(f'kani: only {a} of {b} cover properties satisfied (vacuity)')
+    checks = sum(int(x) for x in re.findall(r'\*\* \d+ of (\d+) failed', out))
+    ck.notes.append({'kani': {'harness_filters': harness_filters, 'verified': n_ok, 'failed': n_fail, 'total': n_total, 'checks': checks, 'wall_s': round(dt, 1),
+                              'cmd': ' '.join(cmd)}})
+    ck.kani = getattr(ck, 'kani', {'harnesses': 0, 'checks': 0, 'time': 0.0})
+    ck.kani['harnesses'] += n_total
+    ck.kani['checks'] += checks
+    ck.kani['time'] += dt
+    for f in failed_names:
+        res[f.split('::')[-1]] = 'failed'
+    return res, out
+
+
+def kani_playback(harness, timeout_s=900):
+    """concrete values of a failing harness: list of byte lists in kani::any() order"""
+    import re
+    kdir = os.path.join(VERIF, 'kani')
+    env = dict(os.environ, CARGO_NET_OFFLINE='true', CARGO_TARGET_DIR=os.path.join(BUILD, 'kani'))
+    cmd = ['cargo', 'kani', '-Z', 'concrete-playback', '--concrete-playback=print', '--harness', harness]
+    try:
+        p = subprocess.run(cmd, cwd=kdir, env=env, capture_output=True, text=True, timeout=timeout_s)
+    except subprocess.TimeoutExpired:
+        return None
+    out = p.stdout
+    vals = []
+    blk = re.search(r'let concrete_vals: Vec<Vec<u8>> = vec!\[(.*?)\];', out, re.S)
+    if not blk:
+        return None
+    for mm in re.finditer(r'vec!\[([0-9,\s]*)\]', blk.group(1)):
+        vals.append([int(x) for x in mm.group(1).replace(' ', '').split(',') if x])
+    return vals
